@@ -108,7 +108,12 @@ def case_from_scenario(sc, rng, variant=0):
         fault["d"] = st
     if sc["op"] == "dl":
         d = payload(rng, n)
-        if sc["decl"] and variant == 0:
+        if variant == 2:
+            # text mode of the file API: the TextIOWrapper / BufferedWriter stack closes in two steps
+            d = [rng.randrange(32, 127) for _ in range(n)]
+            call = {"api": "open_w", "idx": 0x2000, "sub": 0, "data": d, "size": n if sc["decl"] else -1,
+                    "buffering": rng.choice([1, 7, 1024]), "chunks": [n] if n else [], "mode": "w", "force": sc["force"]}
+        elif sc["decl"] and variant == 0:
             call = {"api": "download", "idx": 0x2000, "sub": 0, "data": d, "force": sc["force"]}
         else:
             call = {"api": "open_w", "idx": 0x2000, "sub": 0, "data": d, "size": n if sc["decl"] else -1,
@@ -180,6 +185,8 @@ def main():
             c = case_from_scenario(sc, rng, i % 2)
             c["server"] = "real"
             cases.append(c)
+            if sc["op"] == "dl":
+                cases.append(case_from_scenario(sc, rng, 2))
         cases += extra_cases(rng, args.tier)
     block_leg(v, args, rng)
     results = run_cases("harness.drv_sdo_client:run_case", cases, jobs=args.jobs, timeout=30)
